@@ -172,7 +172,7 @@ class PartProcessor(PartHandler, Maintainable):
         self._part = None
         self._release_reserved_resources()
         self._env.add_datapoint('device_failure', self.name,
-                (self._env.now, lost_part.id if lost_part else None))
+                (self._env.now, lost_part.id if lost_part != None else None))
         self._shutdown(True, lost_part)
 
     def shutdown(self):
